@@ -151,6 +151,8 @@ class kFlowDecomp(pathmodel.AbstractPathModelDAG):
 
         self.G = stdag.stDAG(self.G_internal)
         self.subpath_constraints = subpath_constraints_internal
+        if self.subpath_constraints is not None:
+            self._check_valid_subpath_constraints()
         self.edges_to_ignore = self.G.source_sink_edges.union(edges_to_ignore_internal)
 
         if weight_type not in [int, float]:
